@@ -143,8 +143,24 @@ def monitor(sc, res):
     return fails
 
 
+def pattern_change_scenarios():
+    """generations sealed with different formats, a later one adding an ignore pattern that matches nothing in the tree:
+    the directory hashes of ALL generations stay comparable"""
+    out = []
+    for changed in (False, True):
+        for kind in ("alter", "add"):
+            tree = {"a.txt": "alpha", "s/b.txt": "beta", "s/t/c.txt": "gamma"}
+            ops = [{"op": "create", "at": "", "h": ["md5"], "now": "2026-03-01 12:00:01"}, {"op": "create", "at": "", "h": ["xxh64"], "now": "2026-03-01 12:00:02", "i": ["*.bak"]}]
+            if changed:
+                ops.append({"op": "write", "path": "s/b.txt", "data": "ALTERED"} if kind == "alter" else {"op": "write", "path": "s/new.txt", "data": "n"})
+            ops.append({"op": "verifydh", "at": ""})
+            out.append({"profile": "c09-pattern-change", "root": "root", "tree": tree, "ops": ops,
+                        "c09": {"kind": kind if changed else "none", "changed": changed, "n_seal": 2, "patterns": ["*.bak"], "flat": False, "resealed": False}})
+    return out
+
+
 def run(ctx):
-    scs = [build(ctx.seed * 1000507 + i) for i in range(ctx.scale(150, 2500))]
+    scs = pattern_change_scenarios() + [build(ctx.seed * 1000507 + i) for i in range(ctx.scale(150, 2500))]
     # general scenarios: only the "never aborts" part is judged there
     scs += _scn.standard_pool(ctx, ctx.scale(25, 400), ctx.scale(15, 250))
     return _scn.run_scn(ctx, scs, monitor, extra_fails=largefiles.extra(ctx), witness_ids=("D2a", "D2b", "D2c"),
